@@ -36,7 +36,15 @@ func tableGetN(L *LState) int {
 }
 
 func tableMaxN(L *LState) int {
-	L.Push(LNumber(L.CheckTable(1).MaxN()))
+	tbl := L.CheckTable(1)
+	max := LNumber(tbl.MaxN())
+	// maxn of ltablib.c looks at every numeric key, also at those that are no array indices
+	for k := range tbl.dict {
+		if n, ok := k.(LNumber); ok && n > max {
+			max = n
+		}
+	}
+	L.Push(max)
 	return 1
 }
 
